@@ -141,7 +141,9 @@ Definition holds_kcv (c : ccase) : bool :=
    calls.  The functions are pure, so the model is per call: every call's result must equal the model (and
    satisfy the property) on the contents the block has AT THE TIME OF THAT CALL, whatever was computed on the
    same object before. *)
-Inductive hfn := HKac | HKcv | HLev | HAcorr | HLagm.
+(* HUnsized: any of the five functions on a block without len() (generator, iterator, Stream): TypeError;
+   HNumpy: lpc(blk, order) default dispatch / the numpy strategies, numpy being absent: ImportError *)
+Inductive hfn := HKac | HKcv | HLev | HAcorr | HLagm | HToep | HUnsized | HNumpy.
 Inductive hobs := HF (o : fobs) | HL (l : list Qc) | HT (t : tobs).
 Record hstep := HS { h_fn : hfn; h_blk : list Qc; h_order : option nat; h_obs : hobs }.
 
@@ -152,6 +154,9 @@ Definition corr_step (s : hstep) : bool :=
   | HLev, HF o => corr_lev (LC (h_blk s) (h_order s) o)
   | HAcorr, HL l => list_eqb Qc_eqb l (acorr (h_blk s) (h_order s))
   | HLagm, HT t => tobs_eqb t (lag_matrix (h_blk s) (h_order s))
+  | HToep, HT (TOk t) => tab_eqb t (toeplitz (h_blk s))
+  | HUnsized, HF (FErr e) => String.eqb e "TypeError"
+  | HNumpy, HF (FErr e) => String.eqb e "ModuleNotFoundError" || String.eqb e "ImportError"
   | _, _ => false
   end.
 
@@ -166,6 +171,9 @@ Definition holds_step (s : hstep) : bool :=
   | HAcorr, HL l => list_eqb Qc_eqb l (map (acorr_sum x) (seq 0 lags))
   | HLagm, HT (TOk t) => tab_eqb t (table lags lags (fun j i => lag_sum x (lags - 1)%nat i j))
   | HLagm, HT (TErr _) => (n <? lags)%nat
+  | HToep, HT (TOk t) => tab_eqb t (table n n (fun j i => cf x (dist i j)))
+  | HUnsized, _ => true                  (* the text speaks about blocks "with well-defined length" only *)
+  | HNumpy, _ => true
   | _, _ => false
   end.
 
